@@ -33,6 +33,10 @@ CHECKS = {
          'Arbitrary bytes decoded into (flags, 64 tx variants, index, scriptSig, scriptPubKey) in five modes are run through VerifyScript/EvalScript; '
          'only ValidationError may escape, inputs and cached ids must be unchanged and captured error state must respect the limits; eight (16) '
          'campaigns from empty and seeded corpora; every truncation point of generated structured scripts.', TRUST),
+ 'C08': ('exploration', 'exhaustive enumeration (all byte strings <=2/3 bytes, all opcode pairs, all integers +-70,000) + Hypothesis token/raw-script generators vs reference builder, tokeniser, number codec, predicates and sigop counts',
+         'Builder bytes, cooked iteration and rebuild equal the reference rules; raw iteration partitions every byte string like the reference '
+         'tokeniser and reports malformed pushes as CScriptInvalidError; nine predicates and both sigop counts equal definitions transcribed from Core '
+         'on every short byte string and on template-shaped / near-miss / truncated scripts.', TRUST),
  'C09': ('exploration', 'Hypothesis stateful testing (RuleBasedStateMachine, model-based) + exhaustive enumeration of short histories; invariant after every step = reference encoding of a per-object model',
          'A pool of mutable transactions, immutable snapshots, mutable copies, standalone part copies and blocks is driven by 26 rules; after every '
          'step every object must serialise to the reference encoding of its own model with matching txid/wtxid/hash(), so aliasing and stale caches '
